@@ -723,20 +723,38 @@ main(int argc, char **argv) {
 	published_vectors();
 
 	/* 1. partition confluence on the streaming API.
-	 *    (a) full variant cross (80) on rounds x key size with the counters that carry inside the stream;
-	 *    (b) every configuration with the 5 representative variants. */
-	L = vh_thorough ? LMAX : (2 * 64 + 1);
-	for (r = 0; r < 3; r ++) for (kl = 0; kl < 2; kl ++) {
-		for (c = 0; c < 7; c ++) {
-			if (vh_thorough) { if (c != 2 && c != 5) continue; }	/* 2^32-2, 2^64-2 */
-			else if (!((c == 2 && r == 2 && kl == 1) || (c == 5 && r == 0 && kl == 0))) continue;
+	 *    (a) full variant cross (80) on selected configurations whose counter carries inside the stream;
+	 *    (b) every configuration with the 5 representative variants.
+	 *    Builds compiled with -DC08_LIGHT (the -O0 and the ASan builds, 3-5 times slower per call) explore
+	 *    a smaller instance of the same space; the sizes are printed as NOTE lines. */
+	{
+		size_t La, Lb;	/* stream length of part (a) / (b) */
+		int light = 0, in_a;
+#ifdef C08_LIGHT
+		light = 1;
+#endif
+		if (vh_thorough) { La = LMAX; Lb = light ? (2 * 64 + 1) : LMAX; }
+		else { La = light ? (2 * 64 + 1) : LMAX; Lb = light ? (64 + 1) : (2 * 64 + 1); }
+		L = Lb;
+		for (r = 0; r < 3; r ++) for (kl = 0; kl < 2; kl ++) for (c = 0; c < 7; c ++) {
+			/* c == 2: 2^32-2 (carry into the high word after two blocks), c == 5: 2^64-2 */
+			if (vh_thorough && !light)
+				in_a = (2 == c) || (5 == c && ((2 == r && 1 == kl) || (0 == r && 0 == kl)));
+			else if (vh_thorough || !light)
+				in_a = (2 == c && 2 == r && 1 == kl) || (5 == c && 0 == r && 0 == kl);
+			else
+				in_a = (2 == c && 2 == r && 1 == kl);
+			if (!in_a)
+				continue;
 			cfg = mkcfg(r, kl, 0, c, 1);
-			bfs(&cfg, (vh_thorough || 2 == c) ? LMAX : L, 1);
+			bfs(&cfg, (!vh_thorough && !light && 5 == c) ? Lb : La, 1);
 		}
-	}
-	for (r = 0; r < 3; r ++) for (kl = 0; kl < 2; kl ++) for (c = 0; c < 7; c ++) for (nn = 0; nn < 4; nn ++) {
-		cfg = mkcfg(r, kl, 0, c, nn);
-		bfs(&cfg, L, 0);
+		for (r = 0; r < 3; r ++) for (kl = 0; kl < 2; kl ++) for (c = 0; c < 7; c ++) for (nn = 0; nn < 4; nn ++) {
+			cfg = mkcfg(r, kl, 0, c, nn);
+			bfs(&cfg, Lb, 0);
+		}
+		printf("NOTE\tchacha-bfs tier=%s light=%d L(full cross)=%zu L(all configurations)=%zu\n",
+		    vh_thorough ? "thorough" : "quick", light, La, Lb);
 	}
 
 	/* 2. whole-block interface, counter exact */
